@@ -8,6 +8,7 @@ import (
 	ipfslog "berty.tech/go-ipfs-log"
 	"berty.tech/go-ipfs-log/iface"
 	"berty.tech/go-ipfs-log/zvsync"
+	"github.com/ipfs/go-cid"
 
 	"verif/engine/sched"
 	"verif/engine/store"
@@ -38,6 +39,8 @@ type w13 struct {
 	obs   *obs
 	recs  [][]opRec  // per thread
 	reads [][]readRec // per thread: what each reader call on a log returned, with its call/return timestamps
+	// truncated: the scenario works on a size-bounded log, which by design lacks predecessors of its oldest entries
+	truncated bool
 }
 
 // readRec is one reader call: the set of entries it returned and when it ran.
@@ -252,6 +255,9 @@ func (w *w13) readValues(slot int, l *ipfslog.IPFSLog) {
 
 // noteClosure: every predecessor of a returned entry that was in the world's initial logs must be returned too.
 func (w *w13) noteClosure(slot int, key string, vals []iface.IPFSLogEntry) {
+	if w.truncated {
+		return
+	}
 	have := map[string]bool{}
 	for _, e := range vals {
 		have[e.GetHash().String()] = true
@@ -440,6 +446,33 @@ func c13Scenarios(tier string) []Spec {
 		mk("S9-join|join", 2, b2, func(w *w13) []func() {
 			return []func(){func() { w.joinOp(0, w.a, w.b, -1, "join:A<-B") }, func() { w.joinOp(1, w.a, w.c, -1, "join:A<-C") }}
 		}, A, false),
+		mk("S11-truncated:iterator-error-paths;append|values", 2, b1, func(w *w13) []func() {
+			// a size-bounded merge in the set-up leaves a truncated log whose oldest entries name predecessors it does not hold
+			if _, err := w.a.Join(w.b, 2); err != nil {
+				panic(err)
+			}
+			w.truncated = true
+			kept := w.a.Values().Slice()
+			unknown, _ := cid.NewPrefixV1(cid.DagCBOR, 0x12).Sum([]byte("no such entry"))
+			return []func(){func() {
+				for _, e := range kept {
+					ch := make(chan iface.IPFSLogEntry, 16)
+					_ = w.a.Iterator(&ipfslog.IteratorOptions{LT: []cid.Cid{e.GetHash()}}, ch)
+					ch2 := make(chan iface.IPFSLogEntry, 16)
+					_ = w.a.Iterator(&ipfslog.IteratorOptions{LTE: []cid.Cid{e.GetHash()}, GT: unknown}, ch2)
+				}
+				for _, o := range []*ipfslog.IteratorOptions{{LT: []cid.Cid{unknown}}, {LTE: []cid.Cid{unknown}}, {LTE: []cid.Cid{kept[0].GetHash(), unknown}}} {
+					ch := make(chan iface.IPFSLogEntry, 16)
+					if err := w.a.Iterator(o, ch); err == nil {
+						w.obs.add(0, "iterator-unknown-bound-accepted: Iterator returned no error for an unknown upper bound")
+					}
+				}
+				if err := w.a.Iterator(nil, make(chan iface.IPFSLogEntry, 1)); err == nil {
+					w.obs.add(0, "iterator-nil-options-accepted")
+				}
+				w.appendOp(0, w.a, "x1")
+			}, func() { w.readValues(1, w.a) }}
+		}, A, true),
 		mk("S10-append;append|append", 2, b1, func(w *w13) []func() {
 			return []func(){func() { w.appendOp(0, w.a, "x1"); w.appendOp(0, w.a, "x2") }, func() { w.appendOp(1, w.a, "y1") }}
 		}, A, false),
